@@ -21,6 +21,7 @@
 #include <fstream>
 #include <iomanip>
 #include <iostream>
+#include <limits>
 #include <memory>
 #include <optional>
 #include <sstream>
@@ -149,7 +150,21 @@ namespace bloch::update {
                 }
                 if (start == pos)
                     break;
-                int value = std::stoi(v.substr(start, pos - start));
+                // Accumulate by hand: std::stoi throws on components beyond int range, and this
+                // runs outside the CLI's error handling. An out-of-range component makes the
+                // whole version invalid.
+                long long wide = 0;
+                bool overflow = false;
+                for (size_t k = start; k < pos; ++k) {
+                    wide = wide * 10 + (v[k] - '0');
+                    if (wide > std::numeric_limits<int>::max()) {
+                        overflow = true;
+                        break;
+                    }
+                }
+                if (overflow)
+                    return SemVer{};
+                int value = static_cast<int>(wide);
                 if (idx == 0)
                     sem.major = value;
                 else if (idx == 1)
